@@ -421,15 +421,19 @@ func (m *Memory) FindLatest(
 		var ret []*amhist.MemoryRecord
 
 	records:
-		for id := m.nextId.Load() - 1; id > 0; id-- {
+		for id := m.nextId.Load() - 1; ; id-- {
 			if ctx.Err() != nil || m.Ctx.Err() != nil {
 				return nil
 			}
 
 			v, err := getVal(txn, timeKey(machId, id))
 			if err != nil {
-				m.log("empty hit for %d", id)
-				break
+				if older == nil {
+					m.log("empty hit for %d", id)
+					break
+				}
+				// no more records, the oldest one is still to be checked (last pass)
+				v, err = nil, nil
 			}
 
 			// read TimeRecord
